@@ -2,8 +2,12 @@
 """Markdown table of the seeded changes (seeded/*/meta.json) for DESIGN.md §11."""
 import os as _os
 ROOT = _os.path.dirname(_os.path.dirname(_os.path.abspath(__file__)))
-import json, glob, os
+import json, glob, os, re
 rows = []
+try:
+    FIRST = json.load(open(ROOT + "/seeded/first_pass_misses.json"))
+except Exception:
+    FIRST = {}
 for d in sorted(glob.glob(ROOT + "/seeded/*")):
     try:
         m = json.load(open(d + "/meta.json"))
@@ -12,14 +16,14 @@ for d in sorted(glob.glob(ROOT + "/seeded/*")):
     ok = m.get("confirmed", {})
     conf = "yes" if all(ok.get(k) for k in ("existing_tests_pass_with_change", "demo_fails_with_change", "demo_passes_without_change")) else "partly: %s" % ok
     rows.append((os.path.basename(d), m.get("property", ""), (m.get("summary", "") or "").replace("|", "/")[:170], (m.get("needs", "") or "").replace("|", "/")[:150],
-                 conf, ", ".join(m.get("caught_by", [])) or "MISSED"))
+                 conf, (", ".join(m.get("caught_by", [])) or "MISSED") + ((" — " + FIRST[os.path.basename(d)]) if os.path.basename(d) in FIRST else "")))
 import sys
 out = ["| seeded change | targets | what was changed (truncated; full text in seeded/<name>/meta.json) | needs | confirmed | quick checks that report it |", "|---|---|---|---|---|---|"]
 for r in rows:
     out.append("| `%s` | %s | %s | %s | %s | %s |" % r)
 out.append("")
 out.append("%d seeded changes, %d reported by the check of the property they target, %d missed by every check run." % (
-    len(rows), sum(1 for r in rows if r[1] in r[5].split(", ")), sum(1 for r in rows if r[5] == "MISSED")))
+    len(rows), sum(1 for r in rows if r[1] in re.split(r"[, ]+", r[5].split(" — ")[0])), sum(1 for r in rows if r[5] == "MISSED")) + " %d of them were missed or reported only by a neighbouring property when first evaluated and are reported since the checks were strengthened (noted in the last column)." % sum(1 for r in rows if " — " in r[5]))
 text = "\n".join(out)
 if "--update" in sys.argv:
     B, E = "<!-- SEEDED_TABLE_BEGIN -->", "<!-- SEEDED_TABLE_END -->"
